@@ -176,6 +176,20 @@ def open_checks(ct, cd, rep, rule="open-checks"):
             while ef is None and isinstance(t.cond, ast.UnaryOp) and isinstance(t.cond.op, ast.Not):
                 ef = equality_fact(t.cond.operand, False)
                 break
+            if ef is None:
+                # `not <bytes read>.startswith(SIGNATURE)`: the same test as inequality when exactly len(SIGNATURE) bytes were asked for
+                # (read(n) never returns more than n bytes; fewer bytes cannot start with the n-byte signature)
+                c_, pol_ = t.cond, True
+                while isinstance(c_, ast.UnaryOp) and isinstance(c_.op, ast.Not):
+                    c_, pol_ = c_.operand, not pol_
+                if not pol_ and isinstance(c_, ast.Call) and isinstance(c_.func, ast.Attribute) and c_.func.attr == "startswith" and len(c_.args) == 1 and not c_.keywords:
+                    sigv = c_.args[0]
+                    if isinstance(sigv, ast.Attribute) and sigv.attr == "SIGNATURE":
+                        sigv = ct.tdf.assigns.get("SIGNATURE", sigv)
+                    n_read = ct.ctx.const_int(sig_raw.nbytes) if sig_raw.nbytes is not None else None
+                    if isinstance(sigv, ast.Constant) and isinstance(sigv.value, bytes) and n_read == len(sigv.value) == 16 \
+                            and not any(isinstance(x, (ast.Call, ast.Subscript)) for x in ast.walk(c_.func.value)):
+                        seen_guard = True
             if ef is not None and not ef[2] and not any(isinstance(x, (ast.Call, ast.Subscript)) for side in ef[:2] for x in ast.walk(side)) \
                     and any("SIGNATURE" in norm(side) or (isinstance(side, ast.Constant) and isinstance(side.value, bytes) and len(side.value) == 16) for side in ef[:2]):
                 seen_guard = True
@@ -561,7 +575,9 @@ def refusal_is_plain(prog, rep, rule="exists-before-create"):
             raise AnalysisError(f"anchor vanished: Tdf.{name}")
         for r in [x for x in walk_no_nested(f.node) if isinstance(x, ast.Raise) and x.exc is not None]:
             n += 1
-            calls = [c for c in ast.walk(r.exc) if isinstance(c, ast.Call) and c is not r.exc]
+            from ..facts import template_call_is_total
+            total = {id(z) for y in ast.walk(r.exc) if y is not r.exc and template_call_is_total(tdf.module.tree, y) for z in ast.walk(y)}
+            calls = [c for c in ast.walk(r.exc) if isinstance(c, ast.Call) and c is not r.exc and id(c) not in total]
             risky = [c for c in calls if not (isinstance(c.func, ast.Name) and c.func.id in ("str", "repr", "len", "int", "format", "type")
                                               and all(isinstance(a, (ast.Name, ast.Attribute, ast.Constant)) for a in c.args))]
             if risky:
